@@ -55,7 +55,7 @@ def run(tier, seed):
         v.sample(s)
     nt = v.counters.get('feat_has_P', 0) + v.counters.get('feat_has_H', 0)
     if nt == 0 or v.counters.get('evaluations', 0) == 0:
-        raise MachineryError('vacuous run')
+        v.vacuous('vacuous run')
     cov = dict(states=out['run']['states'], transitions=out['run']['transitions'],
                traces_validated_against_impl=out['n'] - v.counters.get('skipped_single_simulated_individual', 0),
                evaluations=v.counters.get('evaluations', 0), distinct_nontrivial=nt, exhaustive=(tier == 'quick'),
